@@ -156,12 +156,16 @@ func (r *ParseRequestResponse) injectFile(upload *Upload, paths []string) error 
 			parts = parts[1:]
 		}
 
-		if parts[0] != "variables" {
+		if len(parts) == 0 || parts[0] != "variables" {
 			return fmt.Errorf("missing keyword variables in path: %s", path)
 		}
 
 		if len(parts) < 2 {
 			return fmt.Errorf("invalid number of parts in path: %s", path)
+		}
+
+		if idx < 0 || idx >= len(r.Requests) {
+			return fmt.Errorf("request index %d out of bound %d", idx, len(r.Requests))
 		}
 
 		variables := r.Requests[idx].Variables
@@ -193,7 +197,7 @@ func (r *ParseRequestResponse) injectFile(upload *Upload, paths []string) error 
 				}
 
 				// index might not be within the bounds
-				if index >= len(v) {
+				if index < 0 || index >= len(v) {
 					return fmt.Errorf("file index %d out of bound %d", index, len(v))
 				}
 				fileVal := v[index]
